@@ -353,14 +353,17 @@ Definition uses_typecheck (a : desc) : bool :=
   | _ => false
   end.
 Definition proxy_ok (a : desc) (v : pv) : bool := negb (is_proxy v) || negb (uses_typecheck a).
+(* adapt='default': the default the compiled path falls back to is the Instance's own (excludes finding F21) *)
+Definition adapt_ok (a : desc) : bool :=
+  match a with DAdapt _ mode _ dflt => (mode =? 0) || (mode =? 1) || pv_eqb dflt PNone | _ => true end.
 (* the alternatives of a compound, through nested compounds *)
 Fixpoint alt_benign (E : env) (v : pv) (a : desc) : bool :=
   match a with
   | DCompound ds => forallb (alt_benign E v) ds
-  | _ => cast_no_escape E v a && none_ok E a && proxy_ok a v
+  | _ => cast_no_escape E v a && none_ok E a && proxy_ok a v && adapt_ok a
   end.
 Definition benign (E : env) (d : desc) (v : pv) : bool :=
-  bool_final E && no_tuplesub v && none_ok E d && proxy_ok d v &&
+  bool_final E && no_tuplesub v && none_ok E d && proxy_ok d v && adapt_ok d &&
   match d with
   | DCompound ds => forallb (alt_benign E v) ds
   | _ => true
@@ -420,10 +423,11 @@ Proof. destruct v; cbn; try discriminate. intros _ H; now inversion H. Qed.
 
 Lemma leaf_eq E a v :
   alt_ok a = true -> is_fast a = true -> bool_final E = true -> no_tuplesub v = true ->
-  cast_no_escape E v a = true -> none_ok E a = true -> proxy_ok a v = true -> (forall ds, a <> DCompound ds) ->
+  cast_no_escape E v a = true -> none_ok E a = true -> proxy_ok a v = true -> adapt_ok a = true ->
+  (forall ds, a <> DCompound ds) ->
   c_case E a v = py_validate E a v.
 Proof.
-  intros Hok Hf HB HT HC HN HP Hnc.
+  intros Hok Hf HB HT HC HN HP HA Hnc.
   destruct a; cbn in Hok, Hf; try discriminate; try (exfalso; eapply Hnc; reflexivity).
   - (* DInt *) cbn. dm.
   - (* DFloat *) cbn. dm.
@@ -459,7 +463,12 @@ Proof.
       * destruct v; try reflexivity. discriminate.
     + destruct v; try reflexivity. unfold isinstance. cbn.
       apply negb_true_iff in HN. fold cNONE. now rewrite HN.
-  - (* DAdapt *) cbn. destruct v; reflexivity.
+  - (* DAdapt *) cbn in HA. cbn [c_case py_validate].
+    destruct v; try reflexivity; destruct (mode =? 0) eqn:H0; try reflexivity;
+      destruct (oracle E (100 + cls) _); try reflexivity;
+      match goal with |- context [isinstance E ?x cls] => destruct (isinstance E x cls) end; try reflexivity;
+      destruct (mode =? 1) eqn:H1; try reflexivity;
+      cbn in HA; apply pv_eqb_true in HA; now subst.
   - (* DSelf *) cbn. rewrite (notproxy_isinstance E v _ (proxy_ok_notproxy _ _ HP eq_refl)).
     destruct allow_none, (pv_eqb v PNone), (typecheck E v (e_self E)); reflexivity.
   - (* DCallable *) cbn. destruct v; cbn; try reflexivity; now destruct allow_none.
@@ -513,9 +522,9 @@ Lemma alt_eq E v : bool_final E = true -> no_tuplesub v = true -> forall a, alt_
 Proof.
   intros HB HT a. induction a as [d H|ds H|ds H|ds H] using desc_ind'.
   - (* leaves *) intros _ Hok Hf Hb.
-    assert (Hb' : cast_no_escape E v d && none_ok E d && proxy_ok d v = true).
+    assert (Hb' : cast_no_escape E v d && none_ok E d && proxy_ok d v && adapt_ok d = true).
     { destruct d; try exact Hb. exfalso. destruct (H ds) as (_ & Hc & _). now apply Hc. }
-    apply andb_prop in Hb' as [Hb' Hpx]. apply andb_prop in Hb' as [Hc Hn].
+    apply andb_prop in Hb' as [Hb' Had]. apply andb_prop in Hb' as [Hb' Hpx]. apply andb_prop in Hb' as [Hc Hn].
     apply leaf_eq; auto. intros ds Hd. destruct (H ds) as (_ & Hx & _). now apply Hx.
   - (* Tuple *) intros _ Hok Hf Hb. apply leaf_eq; auto; try reflexivity; try discriminate;
       try (unfold proxy_ok; cbn; apply orb_true_r).
@@ -544,8 +553,8 @@ Lemma fast_eq_slow_lemma E d v :
   agrees (c_validate E d v) (py_validate E d v) = true.
 Proof.
   intros Hwf Hs Hb. unfold benign in Hb.
-  apply andb_prop in Hb as [Hb Hcomp]. apply andb_prop in Hb as [Hb HP]. apply andb_prop in Hb as [Hb HN].
-  apply andb_prop in Hb as [HB HT].
+  apply andb_prop in Hb as [Hb Hcomp]. apply andb_prop in Hb as [Hb HA]. apply andb_prop in Hb as [Hb HP].
+  apply andb_prop in Hb as [Hb HN]. apply andb_prop in Hb as [HB HT].
   destruct d; cbn in Hs; try discriminate;
     lazymatch goal with
     | |- agrees (c_validate E (DCast ?t) v) _ = true =>
@@ -604,6 +613,12 @@ Lemma refuted_cast_escape :    (* residue of F17: an exception of the value's ow
   let d := DCompound [DCast CTInt; DInstance cIDXOBJ false false] in let v := PIndexObj (Raises EOtherError) in
   wf_desc d = true /\ c03_scope d = true /\
   agrees (c_validate (mkEnv [(20, 20)] 110 [] []) d v) (py_validate (mkEnv [(20, 20)] 110 [] []) d v) = false.
+Proof. vm_compute. repeat split. Qed.
+
+Lemma refuted_adapt_default :    (* F21 *)
+  let E := mkEnv [(3, 3); (6, 6); (100, 100)] 110 [(1, PInt 5, PStr [53])] [] in
+  let d := DCompound [DAdapt 100 2 false (PStr [78; 111; 110; 101]); DCast CTStr] in let v := PInt 5 in
+  wf_desc d = true /\ c03_scope d = true /\ agrees (c_validate E d v) (py_validate E d v) = false.
 Proof. vm_compute. repeat split. Qed.
 
 Lemma refuted_none_instance :    (* F18 *)
